@@ -343,3 +343,248 @@ Lemma exec_io : forall ops ls, map has_io (exec ls ops) = map has_io ls.
 Proof.
   induction ops as [|o t IH]; intro ls; cbn [exec]; [reflexivity|]. rewrite IH, step_io. reflexivity.
 Qed.
+
+(** ---- consequences of the ghost-log invariant ---- *)
+Inductive subseq {A} : list A -> list A -> Prop :=
+| subseq_nil : subseq [] []
+| subseq_take : forall x a b, subseq a b -> subseq (x :: a) (x :: b)
+| subseq_skip : forall x a b, subseq a b -> subseq a (x :: b).
+
+Lemma subseq_refl : forall {A} (l : list A), subseq l l.
+Proof. induction l; constructor; assumption. Qed.
+Lemma subseq_app_r : forall {A} (a b c : list A), subseq a b -> subseq a (b ++ c).
+Proof.
+  intros A a b c H. induction H; cbn.
+  - induction c; constructor; assumption.
+  - constructor; assumption.
+  - constructor; assumption.
+Qed.
+Lemma subseq_filter_map : forall {A B} (f : A -> B) p (l : list A), subseq (map f (filter p l)) (map f l).
+Proof.
+  induction l as [|x t IH]; cbn; [constructor|].
+  destruct (p x); cbn; constructor; exact IH.
+Qed.
+
+Lemma perm_filter_split : forall {A B} (f : A -> B) p (l : list A),
+  Permutation (map f l) (map f (filter p l) ++ map f (filter (fun x => negb (p x)) l)).
+Proof.
+  induction l as [|x t IH]; cbn; [constructor|].
+  destruct (p x); cbn.
+  - constructor. exact IH.
+  - apply Permutation_cons_app. exact IH.
+Qed.
+
+(** every copy ever accepted on the link is, exactly once, on the wire, lost, or still queued *)
+Lemma inv_conservation : forall l, inv l ->
+  Permutation (acc l) (wire_of l ++ lost_of l ++ map cpy_of (queue l)).
+Proof.
+  intros l (H & _). unfold log_ok in H. rewrite H, app_assoc.
+  apply Permutation_app_tail. apply perm_filter_split.
+Qed.
+
+(** what reached the wire is a subsequence of the arrival order *)
+Lemma inv_fifo : forall l, inv l -> subseq (wire_of l) (acc l).
+Proof.
+  intros l (H & _). unfold log_ok in H. rewrite H. apply subseq_app_r, subseq_filter_map.
+Qed.
+
+(** ... and the still-queued copies are exactly the most recent arrivals, in order *)
+Lemma inv_queue_suffix : forall l, inv l -> exists done, acc l = done ++ map cpy_of (queue l) /\ subseq (wire_of l) done.
+Proof.
+  intros l (H & _). exists (map fst (fates l)). split; [exact H|apply subseq_filter_map].
+Qed.
+
+(** ---- how one op changes the arrival log of link j ---- *)
+Definition uniques (l : link) : list dgram := map fst (filter (fun c => negb (snd c)) (acc l)).
+Definition nprobes (l : link) : Z := blen (filter (fun c : cpy => snd c) (acc l)).
+
+(** the client datagram this op routes to link j (the scheduler's choice) *)
+Definition routed_to_op (j : nat) (o : op) : list dgram :=
+  match o with
+  | Client _ (b :: p) (Some i) _ _ _ => if Nat.eqb j i then [b :: p] else []
+  | _ => []
+  end.
+(** is this op a routed SRT data packet *)
+Definition routed_data_op (o : op) : Z :=
+  match o with
+  | Client _ (b :: p) (Some _) _ _ _ => if is_some (seq_of (b :: p)) then 1 else 0
+  | _ => 0
+  end.
+
+Inductive acc_change (o : op) (j : nat) (l l' : link) : Prop :=
+| ac_same : acc l' = acc l -> routed_to_op j o = [] -> acc_change o j l l'
+| ac_unique : forall now pkt i reg gated orc,
+    o = Client now pkt (Some i) reg gated orc -> pkt <> [] -> j = i ->
+    acc l' = acc l ++ [(pkt, false)] -> acc_change o j l l'
+| ac_probe : forall now pkt i reg gated orc,
+    o = Client now pkt (Some i) reg gated orc -> pkt <> [] -> j <> i ->
+    reg = true -> is_some (seq_of pkt) = true -> nth j gated false = true -> connected l = true ->
+    STALL_PROBE_ONE_IN_N <= ctr l + 1 ->
+    acc l' = acc l ++ [(pkt, true)] -> acc_change o j l l'.
+
+Lemma flush_link_acc : forall now orc l l2 out ok, flush_link now orc l = (l2, out, ok) -> acc l2 = acc l.
+Proof. intros. apply flush_link_spec in H. destruct H as (k & _ & _ & -> & _). reflexivity. Qed.
+
+Lemma step_link_acc : forall hw o j l, acc_change o j l (fst (step_link hw o j l)).
+Proof.
+  intros hw o j l. destruct o as [now pkt sel reg gated orc|now orc|i r|i k|i b|eff ctl|ctl];
+    cbn [step_link].
+  - destruct pkt as [|b0 pkt']; [apply ac_same; reflexivity|].
+    destruct sel as [i|]; [|apply ac_same; reflexivity].
+    destruct (Nat.eqb j i) eqn:Hji.
+    + destruct (queue_and_flush _ _ _ l) as [l' w] eqn:Hq. apply qaf_spec in Hq. cbn.
+      eapply ac_unique; [reflexivity|discriminate|apply Nat.eqb_eq; exact Hji|tauto].
+    + destruct (reg && is_some _ && nth j gated false && connected l) eqn:Hc;
+        [|apply ac_same; [reflexivity|cbn; rewrite Hji; reflexivity]].
+      apply andb_true_iff in Hc. destruct Hc as (Hc & Hconn).
+      apply andb_true_iff in Hc. destruct Hc as (Hc & Hg).
+      apply andb_true_iff in Hc. destruct Hc as (Hreg & Hdata).
+      destruct (STALL_PROBE_ONE_IN_N <=? ctr l + 1) eqn:Hn;
+        [|apply ac_same; [reflexivity|cbn; rewrite Hji; reflexivity]].
+      destruct (queue_and_flush _ _ _ (set_ctr 0 l)) as [l' w] eqn:Hq. apply qaf_spec in Hq. cbn.
+      eapply ac_probe; [reflexivity|discriminate|apply Nat.eqb_neq; exact Hji|exact Hreg|exact Hdata
+                       |exact Hg|exact Hconn|lia|tauto].
+  - apply ac_same; [|reflexivity]. destruct (hw && has_queued l && has_io l); [|reflexivity].
+    destruct (flush_link now (orc_of orc j) l) as [[l2 out] ok] eqn:Hf. cbn. eapply flush_link_acc; eassumption.
+  - apply ac_same; [|reflexivity]. destruct (Nat.eqb j i); reflexivity.
+  - apply ac_same; [|reflexivity]. destruct (Nat.eqb j i); [destruct k|]; reflexivity.
+  - apply ac_same; [|reflexivity]. destruct (Nat.eqb j i); reflexivity.
+  - apply ac_same; [|reflexivity]. cbn. destruct (nth j eff HKeep) as [|r|k]; [reflexivity|reflexivity|destruct k; reflexivity].
+  - apply ac_same; reflexivity.
+Qed.
+
+Lemma step_link_uniques : forall hw o j l,
+  uniques (fst (step_link hw o j l)) = uniques l ++ routed_to_op j o.
+Proof.
+  intros hw o j l. unfold uniques.
+  destruct (step_link_acc hw o j l) as [Ha Hr|now pkt i reg gated orc -> Hp -> Ha|now pkt i reg gated orc -> Hp Hji _ _ _ _ _ Ha].
+  - rewrite Ha, Hr, app_nil_r. reflexivity.
+  - rewrite Ha, filter_app, map_app. cbn. destruct pkt; [contradiction|]. rewrite Nat.eqb_refl. reflexivity.
+  - rewrite Ha, filter_app, map_app. cbn. destruct pkt; [contradiction|].
+    apply Nat.eqb_neq in Hji. rewrite Hji. cbn. rewrite ?app_nil_r. reflexivity.
+Qed.
+
+(** ---- the probe-rate potential: 100 * (probe copies so far) + counter grows by at
+    most one per routed data packet and never otherwise ---- *)
+Definition potential (l : link) : Z := STALL_PROBE_ONE_IN_N * nprobes l + ctr l.
+
+Lemma nprobes_unique : forall l l' p, acc l' = acc l ++ [(p, false)] -> nprobes l' = nprobes l.
+Proof. intros l l' p H. unfold nprobes. rewrite H, filter_app. cbn. rewrite app_nil_r. reflexivity. Qed.
+Lemma nprobes_probe : forall l l' p, acc l' = acc l ++ [(p, true)] -> nprobes l' = nprobes l + 1.
+Proof.
+  intros l l' p H. unfold nprobes. rewrite H, filter_app. cbn. unfold blen. rewrite app_length. cbn. lia.
+Qed.
+Lemma nprobes_same : forall l l', acc l' = acc l -> nprobes l' = nprobes l.
+Proof. intros l l' H. unfold nprobes. rewrite H. reflexivity. Qed.
+
+Lemma qaf_ctr : forall now e orc l l' w,
+  queue_and_flush now e orc l = (l', w) -> ctr l' = ctr l \/ ctr l' = 0.
+Proof.
+  intros now e orc l l' w H. apply qaf_spec in H.
+  destruct H as (_ & _ & _ & [(-> & _)|(k & _ & _ & _ & _ & _ & [(_ & _ & H & _)|(_ & _ & _ & H & _)])]).
+  - left; reflexivity.
+  - left; exact H.
+  - right; exact H.
+Qed.
+
+Ltac pfin := unfold nprobes;
+  cbn [fst set_ctr set_conn set_regime reset_link drop_queue upd_q acc ctr]; lia.
+
+Lemma step_link_potential : forall hw o j l, inv l ->
+  potential (fst (step_link hw o j l)) <= potential l + routed_data_op o /\
+  nprobes l <= nprobes (fst (step_link hw o j l)).
+Proof.
+  intros hw o j l Hinv. pose proof Hinv as (_ & Hc & _). unfold ctr_ok in Hc. unfold potential.
+  destruct o as [now pkt sel reg gated orc|now orc|i r|i k|i b|eff ctl|ctl]; cbn [step_link routed_data_op].
+  - destruct pkt as [|b0 pkt']; [pfin|]. destruct sel as [i|]; [|pfin].
+    assert (Hd : 0 <= (if is_some (seq_of (b0 :: pkt')) then 1 else 0)) by (destruct (is_some _); lia).
+    destruct (Nat.eqb j i).
+    + destruct (queue_and_flush _ _ _ l) as [l' w] eqn:Hq. cbn [fst].
+      pose proof (qaf_ctr _ _ _ _ _ _ Hq) as Hctr. apply qaf_spec in Hq.
+      destruct Hq as (_ & _ & Ha & _). rewrite (nprobes_unique _ _ _ Ha). lia.
+    + destruct (reg && is_some _ && nth j gated false && connected l) eqn:Hcond; [|pfin].
+      assert (Hdata : is_some (seq_of (b0 :: pkt')) = true).
+      { apply andb_true_iff in Hcond. destruct Hcond as (Hcond & _).
+        apply andb_true_iff in Hcond. destruct Hcond as (Hcond & _).
+        apply andb_true_iff in Hcond. tauto. }
+      rewrite Hdata.
+      destruct (STALL_PROBE_ONE_IN_N <=? ctr l + 1) eqn:Hn.
+      * destruct (queue_and_flush _ _ _ (set_ctr 0 l)) as [l' w] eqn:Hq. cbn [fst].
+        pose proof (qaf_ctr _ _ _ _ _ _ Hq) as Hctr. apply qaf_spec in Hq.
+        destruct Hq as (_ & _ & Ha & _). cbn [acc set_ctr ctr] in *.
+        rewrite (nprobes_probe l l' _ Ha). lia.
+      * pfin.
+  - destruct (hw && has_queued l && has_io l); [|pfin].
+    destruct (flush_link now (orc_of orc j) l) as [[l2 out] ok] eqn:Hf. cbn [fst].
+    apply flush_link_spec in Hf. destruct Hf as (k & _ & _ & -> & _). pfin.
+  - destruct (Nat.eqb j i); pfin.
+  - destruct (Nat.eqb j i); [destruct k|]; pfin.
+  - destruct (Nat.eqb j i); pfin.
+  - cbn [fst]. destruct (nth j eff HKeep) as [|r|k]; [| |destruct k]; pfin.
+  - pfin.
+Qed.
+
+(** ---- a flush tick empties every queue that has I/O ---- *)
+Lemma step_flush_empties : forall ls now orc,
+  Forall (fun l => has_io l = true -> queue l = []) (fst (step ls (FlushTick now orc))).
+Proof.
+  intros ls now orc. unfold step. cbn [fst].
+  assert (Hhw : forall l, In l ls -> has_queued l = true -> existsb has_queued ls = true).
+  { intros l Hin Hq. apply existsb_exists. exists l. split; assumption. }
+  revert Hhw. generalize (existsb has_queued ls) as hw. generalize 0%nat as j.
+  induction ls as [|l t IH]; intros j hw Hhw; cbn [step_links map]; [constructor|].
+  constructor.
+  - cbn [step_link]. destruct (has_queued l) eqn:Hq.
+    + rewrite (Hhw l (or_introl eq_refl) Hq). cbn [andb].
+      destruct (has_io l) eqn:Hio.
+      * destruct (flush_link now (orc_of orc j) l) as [[l2 out] ok] eqn:Hf. cbn [fst].
+        apply flush_link_spec in Hf. destruct Hf as (k & _ & _ & -> & _). reflexivity.
+      * cbn. intro H; rewrite Hio in H; discriminate.
+    + rewrite andb_false_r. cbn. intros _. unfold has_queued in Hq.
+      destruct (queue l); [reflexivity|]. rewrite blen_nat in Hq. cbn in Hq. lia.
+  - apply IH. intros l0 Hin. apply Hhw. right; exact Hin.
+Qed.
+
+(** ---- lifting to op lists ---- *)
+Definition dlink : link :=
+  init_link {| i_regime := Normal; i_conn := false; i_ctr := 0; i_io := false |}.
+
+Definition routed_to (j : nat) (ops : list op) : list dgram := flat_map (routed_to_op j) ops.
+Definition routed_data (ops : list op) : Z := fold_right (fun o a => routed_data_op o + a) 0 ops.
+
+Lemma exec_app : forall a b ls, exec ls (a ++ b) = exec (exec ls a) b.
+Proof. induction a as [|o t IH]; intros b ls; cbn [exec app]; [reflexivity|apply IH]. Qed.
+
+Lemma Forall_nth_inv : forall ls j, Forall inv ls -> (j < length ls)%nat -> inv (nth j ls dlink).
+Proof. intros ls j H Hj. rewrite Forall_forall in H. apply H, nth_In, Hj. Qed.
+
+Lemma exec_uniques : forall ops ls j, (j < length ls)%nat ->
+  uniques (nth j (exec ls ops) dlink) = uniques (nth j ls dlink) ++ routed_to j ops.
+Proof.
+  induction ops as [|o t IH]; intros ls j Hj; cbn [exec routed_to flat_map].
+  - rewrite app_nil_r. reflexivity.
+  - rewrite IH by (rewrite step_length; exact Hj).
+    rewrite nth_step by exact Hj. rewrite step_link_uniques, <- app_assoc. reflexivity.
+Qed.
+
+Lemma exec_potential : forall ops ls j, Forall inv ls -> (j < length ls)%nat ->
+  potential (nth j (exec ls ops) dlink) <= potential (nth j ls dlink) + routed_data ops /\
+  nprobes (nth j ls dlink) <= nprobes (nth j (exec ls ops) dlink).
+Proof.
+  induction ops as [|o t IH]; intros ls j Hinv Hj; cbn [exec].
+  - cbn. lia.
+  - change (routed_data (o :: t)) with (routed_data_op o + routed_data t).
+    destruct (IH (fst (step ls o)) j (step_inv _ _ Hinv)) as [H1 H2]; [rewrite step_length; exact Hj|].
+    rewrite nth_step in H1, H2 by exact Hj.
+    destruct (step_link_potential (existsb has_queued ls) o j (nth j ls dlink) (Forall_nth_inv _ _ Hinv Hj)) as [H3 H4].
+    lia.
+Qed.
+
+Lemma init_nth_acc : forall xs j, acc (nth j (init xs) dlink) = [].
+Proof.
+  intros xs j. unfold init. destruct (Nat.lt_ge_cases j (length xs)) as [H|H].
+  - rewrite nth_indep with (d' := init_link {| i_regime := Normal; i_conn := false; i_ctr := 0; i_io := false |})
+      by (rewrite map_length; exact H).
+    rewrite map_nth. reflexivity.
+  - rewrite nth_overflow by (rewrite map_length; exact H). reflexivity.
+Qed.
